@@ -374,6 +374,8 @@ def run_job(job: dict) -> dict:
                     "core_runtime": lambda: cored / "http_transport.py",
                     "core_aliases": lambda: cored / "exception_aliases.py",
                     "core_init": lambda: cored / "__init__.py",
+                    # the __init__.py of the top-level ancestor package (of the client, and of a dotted core as well)
+                    "ancestor_init": lambda: root / pkg.split(".")[0] / "__init__.py",
                 }
                 return pick[cls]()
 
